@@ -194,7 +194,7 @@ def job_eacces(res, rng, sc, w, job):
                     if not ok:
                         break
                     if p in ["t/" + v.rel for v in victims]:
-                        if row[1] != b[p][1] or row[3] != "" or row[4] != "" or row[2] != "----------":
+                        if row[1] != b[p][1] or row[3] != "" or row[4] != "" or row[2] != "----------" or row[6] != "" or row[5] not in ("", "false"):
                             res.viol("unreadable file %s: cells %s (content cells must be empty, size unchanged)" % (p, row), ctx)
                             ok = None
                             break
